@@ -744,30 +744,60 @@ def one_case(seed, idx, out, model_ok, ops, pend):
 
 
 
-def run_excel(path, fixer_kind, tracker, to):
-    """read_excel on a workbook: delivered tables keyed by (sheet name, origin row) through a recording handler,
-    fixer snapshot at every yield, issues with sheet and row"""
-    import pdtable.io.parsers.blocks as B
+def sheet_table_origins(xrows, fixer_kind, tracker, to):
+    """(sheet name, origin row) of the TABLE blocks delivered when the sheets are read in form `to` — observed through
+    the public surface only: `parse_blocks_stable` per sheet with a handler dict of our own built from the public
+    DEFAULT_HANDLERS / TABLE_HANDLERS as `parse_blocks` builds its own, the TABLE handler wrapped to record the origin
+    it is given when it returns. Nothing in the library is modified."""
+    from pdtable import BlockType
+    from pdtable.io.parsers import blocks as B
+    from pdtable.table_origin import InputError
+    arg, _ = fixer_arg(fixer_kind)
+    rec = []
+    for sname, rows in xrows.items():
+        handlers = {bt: B.make_raw_cells for bt in BlockType}
+        handlers.update(dict(B.DEFAULT_HANDLERS))
+        base = dict(B.TABLE_HANDLERS)[to]
+
+        def table_handler(cells, *a, _base=base, _sname=sname, **kw):
+            origin = kw.get("origin", a[0] if a else None)
+            val = _base(cells, *a, **kw)
+            rec.append((_sname, getattr(getattr(origin, "input_location", None), "row", None)))
+            return val
+        handlers[BlockType.TABLE] = table_handler
+        tr = bc.collecting_tracker() if tracker == "collecting" else None
+        sink = io.StringIO()
+        try:
+            with warnings.catch_warnings(), contextlib.redirect_stdout(sink), contextlib.redirect_stderr(sink):
+                warnings.simplefilter("ignore")
+                fixer = None if arg is None else B.make_fixer(origin=None, fixer=arg)
+                for _ in B.parse_blocks_stable(iter([tuple(r) for r in rows]), issue_tracker=tr, block_handlers=handlers,
+                                               fixer=fixer):
+                    pass
+        except InputError:
+            break
+        except Exception:  # noqa: BLE001 — observation pass only; the read_excel result is what is judged
+            return None
+    return rec
+
+
+def run_excel(path, fixer_kind, tracker, to, xrows):
+    """read_excel on a workbook: delivered tables keyed by (sheet name, origin row), fixer snapshot at every yield,
+    issues with sheet and row"""
     from pdtable import read_excel
     from pdtable.table_origin import InputError
     arg, getter = fixer_arg(fixer_kind)
     tr = bc.collecting_tracker() if tracker == "collecting" else None
     rec, blocks, snaps, ending, err = [], [], [], "exhausted", None
-    orig = B._table_handlers[to]
-
-    def wrapped(cells, *a, **kw):
-        origin = kw.get("origin", a[0] if a else None)
-        val = orig(cells, *a, **kw)
-        loc = getattr(origin, "input_location", None)
-        rec.append((getattr(loc, "sheet_name", None), getattr(loc, "row", None)))
-        return val
-    B._table_handlers[to] = wrapped
     sink = io.StringIO()
     try:
         with warnings.catch_warnings(), contextlib.redirect_stdout(sink), contextlib.redirect_stderr(sink):
             warnings.simplefilter("ignore")
             for bt, val in read_excel(path, to=to, issue_tracker=tr, fixer=arg):
                 blocks.append({"ty": bt.name, "val": bc.canon_block(bt, val, to)})
+                if bt.name == "TABLE" and to == "pdtable":
+                    loc = val.metadata.origin.input_location          # a Table carries its own origin
+                    rec.append((getattr(loc, "sheet_name", None), getattr(loc, "row", None)))
                 fx = getter()
                 if fx is None:
                     snaps.append(None)
@@ -782,8 +812,6 @@ def run_excel(path, fixer_kind, tracker, to):
         err = issue_text(issue)
     except Exception as e:  # noqa: BLE001
         ending = {"escaped": type(e).__name__}
-    finally:
-        B._table_handlers[to] = orig
     if tr is not None:
         issues = [[getattr(i.load_location, "sheet_name", None), getattr(i.load_location, "row", None)] for i in tr.issues]
         texts = [issue_text(i) for i in tr.issues]
@@ -791,6 +819,8 @@ def run_excel(path, fixer_kind, tracker, to):
         issues = [ending["InputError"]] if isinstance(ending, dict) and "InputError" in ending else []
         texts = [err] if err is not None else []
     tidx = [k for k, b in enumerate(blocks) if b["ty"] == "TABLE"]
+    if to != "pdtable" and tidx:
+        rec = sheet_table_origins(xrows, fixer_kind, tracker, to) or []
     tables = {}
     if len(tidx) == len(rec):
         for key, k in zip(rec, tidx):
@@ -843,7 +873,7 @@ def workbook_case(seed, idx, out, model_ok, ops, pend, tmpdir):
             xrows = {w.title: [list(r) for r in w.iter_rows(values_only=True)] for w in wb2.worksheets}
         finally:
             wb2.close()
-        impl = run_excel(path, fk, tracker, to)
+        impl = run_excel(path, fk, tracker, to, xrows)
     finally:
         os.remove(path)
     case = {"seed": seed, "index": idx, "stream": "workbook", "fixer": fk, "tracker": tracker, "to": to,
